@@ -22,6 +22,7 @@ import (
 	"github.com/goatcms/goatcore/app/bootstrap"
 	"github.com/goatcms/goatcore/app/gio"
 	"github.com/goatcms/goatcore/app/goatapp"
+	"github.com/goatcms/goatcore/app/injector"
 	"github.com/goatcms/goatcore/app/modules/commonm"
 	"github.com/goatcms/goatcore/app/modules/commonm/commservices"
 	"github.com/goatcms/goatcore/app/modules/ocm"
@@ -30,7 +31,9 @@ import (
 	"github.com/goatcms/goatcore/app/modules/pipelinem/pipservices/namespaces"
 	"github.com/goatcms/goatcore/app/modules/terminalm"
 	"github.com/goatcms/goatcore/app/scope"
+	"github.com/goatcms/goatcore/app/scope/argscope"
 	"github.com/goatcms/goatcore/app/scope/contextscope"
+	"github.com/goatcms/goatcore/app/scope/datascope"
 	"github.com/goatcms/goatcore/app/terminal"
 	"github.com/goatcms/goatcore/filesystem"
 	"github.com/goatcms/goatcore/filesystem/filespace/memfs"
@@ -49,6 +52,7 @@ type Cmd struct {
 	Name string   `json:"name,omitempty"` // run: local name of the nested task
 	Wait []string `json:"wait,omitempty"` // run: local wait names (earlier nested siblings, itself, or a name nobody has)
 	Body []Cmd    `json:"body,omitempty"` // run: body of the nested task (probes)
+	Sep  string   `json:"sep,omitempty"`  // run: separator written between the names of --wait (a comma with optional blanks; "" = ",")
 	// spawn: Name is the (global, top-level) name of the detached task, Wait holds global
 	// names (earlier top-level tasks, the submitting task, itself, or a name nobody has),
 	// Body its probes. Scope (isolated mode only): "own" = a fresh isolated-context child of
@@ -57,10 +61,16 @@ type Cmd struct {
 	Scope string `json:"scope,omitempty"`
 }
 
-// Sub is one top-level submission made by the driver goroutine through Runner.Run.
+// Sub is one top-level submission made by the driver goroutine: through Runner.Run, or
+// (Via "piprun") through the callback of the real pip:run terminal command, called with
+// --name/--wait/--body arguments in a command scope of its own that nobody closes, the way
+// independent terminal sessions below one root scope would do it. The wait list then goes
+// through pip:run's own parsing of "--wait=a , b,c".
 type Sub struct {
 	Name    string   `json:"name"`
 	Wait    []string `json:"wait,omitempty"`
+	Via     string   `json:"via,omitempty"` // "" (Runner.Run) | "piprun"
+	Sep     string   `json:"sep,omitempty"` // piprun: separator between the names (a comma with optional blanks; "" = ",")
 	Body    []Cmd    `json:"body"`
 	DelayUs int      `json:"delay_us,omitempty"` // driver sleeps this long before submitting
 }
@@ -75,6 +85,11 @@ type Case struct {
 
 // ---------------------------------------------------------------------------------------
 // generator
+
+// namePool: task names with suffix / prefix / substring / case relations between them (all
+// match pip:run's name pattern). None ends in d<digit> (names of detached tasks).
+var namePool = []string{"b", "ab", "cab", "b1", "ab1", "B", "aB", "_b", "a_b", "b11", "ba", "Ab"}
+var separators = []string{",", ",", " , ", ", ", " ,", "\t,\t "}
 
 var durations = []int{0, 0, 50, 200, 500, 1000, 2000, 3000}
 var delays = []int{0, 0, 0, 0, 100, 500, 1500}
@@ -106,12 +121,24 @@ func Gen(rt *rapid.T) Case {
 	waitPct := []int{20, 40, 70}[hx.Uniform(rt, 3, "waitpct")]
 	failPct := []int{0, 15, 30, 50}[hx.Uniform(rt, 4, "failpct")]
 	var valid []string
+	pool := append([]string(nil), namePool...)
 	for i := 0; i < n; i++ {
-		s := Sub{Name: string(rune('a' + i)), DelayUs: delays[hx.Uniform(rt, len(delays), "delay")]}
+		k := hx.Uniform(rt, len(pool), "name")
+		s := Sub{Name: pool[k], DelayUs: delays[hx.Uniform(rt, len(delays), "delay")]}
+		pool = append(pool[:k], pool[k+1:]...)
 		for _, w := range valid {
 			if high(rt, waitPct, "waits") && len(s.Wait) < 4 {
 				s.Wait = append(s.Wait, w)
 			}
+		}
+		if high(rt, 50, "waitrev") {
+			for a, b := 0, len(s.Wait)-1; a < b; a, b = a+1, b-1 {
+				s.Wait[a], s.Wait[b] = s.Wait[b], s.Wait[a]
+			}
+		}
+		if high(rt, 50, "piprun") {
+			s.Via = "piprun"
+			s.Sep = separators[hx.Uniform(rt, len(separators), "sep")]
 		}
 		invalid := ""
 		if high(rt, 12, "invalid") {
@@ -170,6 +197,9 @@ func Gen(rt *rapid.T) Case {
 						r.Wait = append(r.Wait, "zz")
 					}
 				}
+				if len(r.Wait) > 1 {
+					r.Sep = separators[hx.Uniform(rt, len(separators), "nsep")]
+				}
 				m := 1 + hx.Uniform(rt, 2, "nnbody")
 				for j := 0; j < m; j++ {
 					r.Body = append(r.Body, genProbe(rt))
@@ -201,6 +231,17 @@ func Gen(rt *rapid.T) Case {
 	}
 	c.WaitDelayUs = delays[hx.Uniform(rt, len(delays), "waitdelay")]
 	return c
+}
+
+func sepOf(s string) string {
+	if s == "" {
+		return ","
+	}
+	return s
+}
+
+func okSep(s string) bool {
+	return s == "" || (strings.Count(s, ",") == 1 && strings.Trim(s, ", \t\n") == "")
 }
 
 func insertAt(l []string, v string, pos int) []string {
@@ -355,24 +396,59 @@ type services struct {
 	TasksUnit pipservices.TasksUnit `dependency:"PipTasksUnit"`
 }
 
-func newApp(r *run) (svc services, err error) {
-	var mapp *goatapp.MockupApp
+// newApp boots the application. before (optional) runs on the fresh app before the modules
+// register their default factories (an explicit factory registered there wins).
+func newApp(r *run, before func(app.App) error) (svc services, mapp *goatapp.MockupApp, err error) {
 	if mapp, err = goatapp.NewMockupApp(goatapp.Params{}); err != nil {
-		return svc, err
+		return svc, nil, err
+	}
+	if before != nil {
+		if err = before(mapp); err != nil {
+			return svc, nil, err
+		}
 	}
 	b := bootstrap.NewBootstrap(mapp)
 	for _, m := range []app.Module{terminalm.NewModule(), commonm.NewModule(), ocm.NewModule(), pipelinem.NewModule()} {
 		if err = b.Register(m); err != nil {
-			return svc, err
+			return svc, nil, err
 		}
 	}
 	if err = b.Init(); err != nil {
-		return svc, err
+		return svc, nil, err
 	}
-	mapp.Terminal().SetCommand(terminal.NewCommand(terminal.CommandParams{Name: "p", Callback: r.probe}))
-	mapp.Terminal().SetCommand(terminal.NewCommand(terminal.CommandParams{Name: "s", Callback: r.spawn}))
+	if r != nil {
+		mapp.Terminal().SetCommand(terminal.NewCommand(terminal.CommandParams{Name: "p", Callback: r.probe}))
+		mapp.Terminal().SetCommand(terminal.NewCommand(terminal.CommandParams{Name: "s", Callback: r.spawn}))
+	}
 	err = mapp.DependencyProvider().InjectTo(&svc)
-	return svc, err
+	return svc, mapp, err
+}
+
+// pipRunArgs calls the callback of the terminal command pip:run with the given arguments
+// in a command scope of its own (child of parent, sharing its data and events, like
+// termexec.RunCommand builds it). The scope is not closed by the caller: closing it would
+// wait for the submitted task.
+func pipRunArgs(mapp app.App, parent app.Scope, cwd filesystem.Filespace, args ...string) error {
+	cmd := mapp.Terminal().Command("pip:run")
+	if cmd == nil {
+		return errors.New("harness: pip:run is not registered")
+	}
+	argsData := datascope.New(make(map[interface{}]interface{}))
+	if err := argscope.InjectArgs(argsData, append([]string{"pip:run"}, args...)...); err != nil {
+		return err
+	}
+	callScope := scope.NewChild(parent, scope.ChildParams{
+		DataScope:  parent.BaseDataScope(),
+		EventScope: parent.BaseEventScope(),
+		Injector:   injector.NewMultiInjector([]app.Injector{mapp, datascope.NewInjector("command", argsData)}),
+		Name:       "command:pip:run",
+	})
+	return cmd.Callback()(mapp, gio.NewIOContext(callScope, gio.NewIO(gio.IOParams{
+		In:  gio.NewInput(strings.NewReader("")),
+		Out: gio.NewNilOutput(),
+		Err: gio.NewNilOutput(),
+		CWD: cwd,
+	})))
 }
 
 // ---------------------------------------------------------------------------------------
@@ -428,7 +504,7 @@ func (r *run) script(top int, full string, body []Cmd) string {
 			}
 			l := fmt.Sprintf("pip:run --name=%s --sandbox=self --body=\"%s\"", cmd.Name, strings.Join(nb, "\n"))
 			if len(cmd.Wait) > 0 {
-				l += " --wait=" + strings.Join(cmd.Wait, ",")
+				l += " --wait=\"" + strings.Join(cmd.Wait, sepOf(cmd.Sep)) + "\""
 			}
 			lines = append(lines, l)
 		default:
@@ -450,11 +526,11 @@ func wellFormed(c Case) bool {
 			return false
 		}
 		for _, ch := range s {
-			if !(ch >= 'a' && ch <= 'z' || ch >= '0' && ch <= '9' || ch == '_') {
+			if !(ch >= 'a' && ch <= 'z' || ch >= 'A' && ch <= 'Z' || ch >= '0' && ch <= '9' || ch == '_') {
 				return false
 			}
 		}
-		return s[0] >= 'a' && s[0] <= 'z'
+		return !(s[0] >= '0' && s[0] <= '9') // pip:run's name pattern: ^[a-zA-Z_]+[a-zA-Z0-9_]*$
 	}
 	for _, s := range c.Subs {
 		for _, cmd := range s.Body {
@@ -467,7 +543,7 @@ func wellFormed(c Case) bool {
 		}
 	}
 	for _, s := range c.Subs {
-		if !okName(s.Name) || seen[s.Name] || len(s.Body) == 0 {
+		if !okName(s.Name) || seen[s.Name] || len(s.Body) == 0 || (s.Via != "" && s.Via != "piprun") || !okSep(s.Sep) {
 			return false
 		}
 		seen[s.Name] = true
@@ -492,7 +568,7 @@ func wellFormed(c Case) bool {
 					}
 				}
 			case "run":
-				if !okName(cmd.Name) || nseen[cmd.Name] || len(cmd.Body) == 0 {
+				if !okName(cmd.Name) || nseen[cmd.Name] || len(cmd.Body) == 0 || !okSep(cmd.Sep) {
 					return false
 				}
 				nseen[cmd.Name] = true
@@ -546,7 +622,7 @@ func exec(c Case) hx.Verdict {
 		defer runtime.GOMAXPROCS(runtime.GOMAXPROCS(c.Gomaxprocs))
 	}
 	r := &run{probes: map[string]probeSpec{}, spawns: map[string]spawnSpec{}, spawnRes: map[string]spawnResult{}, groupScopes: map[int]app.Scope{}, mode: c.Mode}
-	svc, err := newApp(r)
+	svc, mapp, err := newApp(r, nil)
 	if err != nil {
 		v := hx.Pass()
 		v.Inconclusive = true
@@ -656,20 +732,29 @@ func exec(c Case) hx.Verdict {
 					r.groupScopes[i] = scp
 					r.mu.Unlock()
 				}
-				rerr := svc.Runner.Run(pipservices.Pip{
-					Context: pipservices.PipContext{
-						In:    gio.NewInput(strings.NewReader(scripts[i])),
-						Out:   gio.NewNilOutput(),
-						Err:   gio.NewNilOutput(),
-						CWD:   cwd,
-						Scope: scp,
-					},
-					Name:       s.Name,
-					Namespaces: ns,
-					Sandbox:    "self",
-					Lock:       commservices.LockMap{},
-					Wait:       append([]string(nil), s.Wait...),
-				})
+				var rerr error
+				if s.Via == "piprun" {
+					args := []string{"--name=" + s.Name, "--sandbox=self", "--body=" + scripts[i]}
+					if len(s.Wait) > 0 {
+						args = append(args, "--wait="+strings.Join(s.Wait, sepOf(s.Sep)))
+					}
+					rerr = pipRunArgs(mapp, scp, cwd, args...)
+				} else {
+					rerr = svc.Runner.Run(pipservices.Pip{
+						Context: pipservices.PipContext{
+							In:    gio.NewInput(strings.NewReader(scripts[i])),
+							Out:   gio.NewNilOutput(),
+							Err:   gio.NewNilOutput(),
+							CWD:   cwd,
+							Scope: scp,
+						},
+						Name:       s.Name,
+						Namespaces: ns,
+						Sandbox:    "self",
+						Lock:       commservices.LockMap{},
+						Wait:       append([]string(nil), s.Wait...),
+					})
+				}
 				t.accepted = rerr == nil
 				t.refused = rerr != nil
 				submitted[s.Name] = t
@@ -1025,6 +1110,32 @@ func exec(c Case) hx.Verdict {
 			if w := all[wn]; w != nil && w.accepted {
 				edges++
 			}
+		}
+		if c.Subs[i].Via == "piprun" {
+			v.Label("via-piprun")
+			if len(t.wait) >= 2 {
+				v.Label("piprun-wait-list>=2")
+			}
+			if strings.Trim(c.Subs[i].Sep, ",") != "" && len(t.wait) >= 2 {
+				v.Label("piprun-wait-list-with-blanks")
+			}
+			for a := range t.wait {
+				for b := a + 1; b < len(t.wait); b++ {
+					x, y := t.wait[a], t.wait[b]
+					switch {
+					case x != y && strings.HasSuffix(x, y):
+						v.Label("piprun-wait-list:later-name-is-suffix-of-earlier")
+					case x != y && strings.HasSuffix(y, x):
+						v.Label("piprun-wait-list:earlier-name-is-suffix-of-later")
+					case x != y && (strings.HasPrefix(x, y) || strings.HasPrefix(y, x)):
+						v.Label("piprun-wait-list:prefix-related-names")
+					case x != y && strings.EqualFold(x, y):
+						v.Label("piprun-wait-list:names-differ-in-case-only")
+					}
+				}
+			}
+		} else {
+			v.Label("via-runner")
 		}
 		lo, hi := -1, -1
 		fam := []*taskInfo{t}
